@@ -119,8 +119,8 @@ class Engine:
         qs += list(spec.extra_queries)
         self.qs, self.ref, self.dropped = [], {}, []
         for q in qs:
-            a = S.call(spec.start().obj, q)
-            b = S.call(spec.start().obj, q)
+            a = S.call(self.start().obj, q)
+            b = S.call(self.start().obj, q)
             if S.deep_diff(a, b):
                 self.dropped.append(q.label)
                 continue
@@ -144,7 +144,19 @@ class Engine:
             run = self.spec.start()
         finally:
             self.spec.on_inputs = None
+        self.dress(run)
         return run, holder.get("w")
+
+    def dress(self, run):
+        """network objects get a link attribute 'w' so that the weighted variants of the
+        measures (key='w' / link_attribute='w') return values instead of raising"""
+        for m in self.spec.mutators:
+            if m.name == "set_la":
+                m.fn(run, 0)
+        return run
+
+    def start(self):
+        return self.dress(self.spec.start())
 
     def method_of(self, q):
         return q.name.split(".")[-1] if q.kind != "attr" else q.name
@@ -240,7 +252,7 @@ class Engine:
             if p.label in seen:
                 continue
             seen.add(p.label)
-            run = self.spec.start()
+            run = self.start()
             S.call(run.obj, p)
             if S.deep_diff(S.call(run.obj, victim), self.ref[victim.label]):
                 return self.method_of(p)
@@ -410,7 +422,7 @@ def surrogates_retention(out, seed):
 
 def plan_pairs(nq, tier, rng, primary):
     if tier == "quick":
-        n = 260 if primary else 120
+        n = 900 if primary else 450
     else:
         n = 3000 if primary else 1200
     total = nq * nq
@@ -460,14 +472,14 @@ def work(task):
                     eng.pair(qs[i], qs[j])
                 #  chains "q1 then everything else" (rotated so that every query comes early once)
                 if tier == "quick":
-                    heads = sorted(set(int(v) for v in rng.randint(nq, size=min(nq, 10 if primary else 5))))
+                    heads = sorted(set(int(v) for v in rng.randint(nq, size=min(nq, 30 if primary else 15))))
                 else:
                     heads = list(range(nq))
                 for h in heads[part::nparts]:
                     order = [qs[h]] + [qs[(h + 1 + k) % nq] for k in range(nq - 1)]
                     eng.chain(order, "chain")
                 #  random sequences
-                nseq = (20 if primary else 10) if tier == "quick" else (200 if primary else 80)
+                nseq = (60 if primary else 30) if tier == "quick" else (200 if primary else 80)
                 seqs = [[qs[int(v)] for v in rng.randint(nq, size=int(rng.randint(3, 7)))] for _ in range(nseq)]
                 for sq in seqs[part::nparts]:
                     eng.chain(sq, "seq")
@@ -500,8 +512,8 @@ def main():
              "series networks, ClimateData, Data, Grid, GeoGrid, Recurrence/Cross/JointRecurrence plots, "
              "Recurrence/JointRecurrence/InterSystem networks, Surrogates, EventSeries; 5-14 nodes / samples); "
              "every public query with name-based argument patterns (incl. link attribute 'w' present via "
-             "none by default, typical_weight=2.0, node lists).  quick: all single queries, 120-260 seeded cold "
-             "ordered pairs, 5-10 'q1 then all' chains and 10-20 random sequences (length 3-6) per class; "
+             "a set_link_attribute call, typical_weight=2.0, node lists).  quick: all single queries, 450-900 seeded cold "
+             "ordered pairs, 15-30 'q1 then all' chains and 30-60 random sequences (length 3-6) per class; "
              "thorough: 1200-3000 cold pairs, a chain for every q1 (all ordered pairs in context) and 80-200 "
              "sequences per class.  Plus: constructor purity for every class, 7x7 shared-ClimateData "
              "constructor orders, 25 static helpers, Surrogates significance tests (#11).  Values: exact for "
